@@ -53,7 +53,10 @@ CLAIMS["C06"] = {
             "ingredient get different hashes, availability equals its "
             "definition on 288 x 5 cases, and after every model history of "
             "reads and changes each access equals a fresh computation on "
-            "the current state while `in` agrees with access. Plus scenario "
+            "the current state while `in` agrees with access (histories "
+            "include a setting changed by another thread while a recipe "
+            "computes, and a plugin recipe removed and registered again "
+            "under the same name). Plus scenario "
             "precedence, plugin/temporary features, write-once LUT "
             "registry, availability recomputed on every call.",
     "note": "The histories are decided on the model recipes, the read sets "
@@ -79,7 +82,9 @@ CLAIMS["C03"] = {
             "Structural rules cover what the model does not contain: the "
             "polygon cache key covers every attribute the evaluation reads, "
             "no return by-passes the inversion, reset clears every memo, the "
-            "filter universe is features_scalar.",
+            "filter universe is features_scalar, no class-level mutable "
+            "object of Filter is mutated through an instance (memo state is "
+            "per dataset).",
     "note": "Decides the histories of the family on the model dataset, not "
             "arbitrary data; numpy semantics are modelled (trusted base); "
             "reproducibility of the event limit rests on C16's seeding rule.",
@@ -103,7 +108,12 @@ CLAIMS["C19"] = {
             "Structural: the file object is handed to h5py by the non-local "
             "formats, state is per instance, the resource identity is bound "
             "in __init__ only, and the memoised listings of the inherited "
-            "HDF5 reader are published only when complete.",
+            "HDF5 reader are published only when complete. A second file "
+            "object opened later on the same URL after the resource was "
+            "replaced must read the new resource (nothing learnt about a URL "
+            "survives outside the file object); the three port computations "
+            "of http_utils / fmt_s3 are evaluated on the scheme x port "
+            "table.",
     "note": "Decides the family, not all sizes; equality of a dataset opened "
             "over HTTP with the local one is decided only as far as the byte "
             "layer and the listing memos go (h5py is not modelled).",
@@ -151,7 +161,8 @@ CLAIMS["C15"] = {
             "visits each cyclic edge once; x/y roles are followed through "
             "all wrappers, inversion iff `inverted`; every key `save` writes "
             "is dispatched by `_load` to the same attribute and floats keep "
-            ">= 17 significant digits.",
+            ">= 17 significant digits; save_all keeps one live file handle "
+            "(no second append handle while a buffered one is open).",
     "note": "Floating-point evaluation of the abscissa for points within "
             "rounding distance of an edge, and uniqueness of identifiers "
             "across files, are not decided. The shipped binaries are assumed "
@@ -257,7 +268,10 @@ CLAIMS["C09"] = {
             "and index_online, pass-through features, logs/tables/config of "
             "every source under distinct prefixes, feature intersection for "
             "one/adjacent/several missing features, chronological sort key "
-            "incl. fractional seconds and ties. No container is mutated "
+            "incl. fractional seconds and ties; the time offset is added in "
+            "double precision also to an input whose time is stored in "
+            "single precision (model arrays follow NumPy-2 promotion: numpy "
+            "scalars strong, python floats weak). No container is mutated "
             "while a live view of it is iterated.",
     "note": "Numeric continuity of time/frame for arbitrary rates and "
             "dates, and equality of joined split parts with the original "
